@@ -242,7 +242,13 @@ func (t *Object) Resolve(field *Field, args map[string]interface{}) (result inte
 			result = &list
 		}
 	case interfacesStr:
-		result = t.Interfaces
+		// A typeList resolves its own members, a plain slice would be
+		// handed to the AnyResolver of the application.
+		list := newTypeList()
+		for _, i := range t.Interfaces {
+			list.add(i)
+		}
+		result = list
 	case possibleTypesStr, enumValuesStr, inputFieldsStr, ofTypeStr:
 		// nil result
 	}
